@@ -330,7 +330,10 @@ def judgeLine (st : St) (l : String) : Except Verdict St := do
     let some dims := (splitList ((kvGet m "dims").getD "-")).mapM unesc | throw (.badop l)
     let some rn := unesc ((kvGet m "rename").getD "%") | throw (.badop l)
     if obs != ["ok"] then throw (.mismatch s!"task new: observed {obs}")
-    pure { st with kind := "task", tKind := (kvGet m "kind").getD "", jcfg := cfg, tDims := dims, uRename := rn,
+    let kind := (kvGet m "kind").getD ""
+    -- "live…" = the node's own runF and multiConsumer on channel edges fed by concurrent goroutines (no TaskMaster)
+    let st := if kind.startsWith "live" then addBr st s!"task-{kind}" else st
+    pure { st with kind := "task", tKind := (if kind.startsWith "live" then (kind.drop 4).toString else kind), jcfg := cfg, tDims := dims, uRename := rn,
                    jOnDims := splitList ((kvGet m "on").getD "-"), tOn := [],
                    tCfgText := " ".intercalate rest, tArr := [], tBin := [] }
   | "task" :: "w" :: src :: t :: rest =>
